@@ -265,8 +265,13 @@ def _is_path_receiver(mod, recv: ast.AST) -> bool:
 
 def _folds_to(prog, module: str, node: ast.AST):
     """Constant value of an expression (module constants substituted), or UNKNOWN."""
-    from ..consts import fold
+    from ..consts import UNKNOWN, fold
 
+    # a module constant stands for its value only if the module binds it exactly once (a rebinding in an except / if branch makes it a variable)
+    tree = prog.package.modules[module].tree
+    for nm in {n.id for n in ast.walk(node) if isinstance(n, ast.Name)}:
+        if sum(1 for s in ast.walk(tree) if isinstance(s, ast.Name) and s.id == nm and isinstance(s.ctx, ast.Store)) > 1:
+            return UNKNOWN
     return fold(prog, module, node)
 
 
